@@ -343,6 +343,51 @@ pub fn run(mode: &str, t: &mut Toks) -> Result<String, String> {
                         }
                         Ok(format!("seq {}", outs.join(" ;; ")))
                     }
+                    "conc" => {
+                        // the named nodes rendered again and again on ONE instance while another thread keeps
+                        // rendering the whole inventory on that same instance: every render equals the first one
+                        let names = t.strings()?;
+                        let render = |name: &str| match r.render_node(name) {
+                            Ok(i) => format!(
+                                "ok {}",
+                                canon_nodeinfo_parts(
+                                    &i.reclass.node,
+                                    &i.reclass.name,
+                                    &i.reclass.uri,
+                                    &i.reclass.environment,
+                                    &i.applications,
+                                    &i.classes,
+                                    &i.parameters,
+                                    &case.nodes_root
+                                )
+                            ),
+                            Err(e) => err_line(&format!("{e}")),
+                        };
+                        let base: Vec<String> = names.iter().map(|n| render(n)).collect();
+                        let stop = std::sync::atomic::AtomicBool::new(false);
+                        let mut differs: Option<String> = None;
+                        std::thread::scope(|sc| {
+                            sc.spawn(|| {
+                                while !stop.load(std::sync::atomic::Ordering::Relaxed) {
+                                    let _ = r.render_inventory();
+                                }
+                            });
+                            'outer: for round in 0..60 {
+                                for (j, n) in names.iter().enumerate() {
+                                    let got = render(n);
+                                    if got != base[j] {
+                                        differs = Some(format!("round {round} S{} {}", hex(n), got));
+                                        break 'outer;
+                                    }
+                                }
+                            }
+                            stop.store(true, std::sync::atomic::Ordering::Relaxed);
+                        });
+                        Ok(match differs {
+                            None => "conc same".to_string(),
+                            Some(d) => format!("conc differs {d}"),
+                        })
+                    }
                     "pynode" => {
                         let name = t.string()?;
                         // Rust-side rendered data of the same node, for the equality oracle
